@@ -18,7 +18,11 @@ PROPS = {
              "prefix lengths 8..32/8..128, shared or separate subnets, service CIDRs, 0..3 host-stack CIDRs, 0..3 extra routes per interface with/without gateway. "
              "Tier B cases: policy or exclusive datapath, family, 1..3 pods on one ENI (exclusive: own ENI stand-in each, optionally a second interface eth1), 2..9 operations "
              "setup/check/teardown in drawn order incl. teardown twice and teardown without setup, optional decoy rules (same priorities, wider prefixes containing pod addresses), "
-             "TeardownCfg with/without host veth name and ENI index. non-trivial = dual-stack, or MultiNetwork, or >= 2 pods on one ENI, or extra routes (tier B: and at least one setup). "
+             "TeardownCfg with/without host veth name and with the ENI index real / 0 / stale-positive. Faulty pre-states are drawn too: before Setup the host namespace may still hold "
+             "stale prio-512/2048 rules for the pod's own address pointing into another interface's table, or the previous owner's veth with a host route for the pod's IPv4 /32; "
+             "the shared ENI may disappear mid-history (later teardowns get its old index); the ENI of eth1 may carry the host ifindex that eth0 occupies inside the pod (kernel renumbers it); "
+             "before about half of the teardowns of a live pod a drawn subset of the pod's own host objects (from/to rule per family, host route per family, host veth) is already gone, "
+             "as after an interrupted earlier DEL. non-trivial = dual-stack, or MultiNetwork, or >= 2 pods on one ENI, or extra routes (tier B: and at least one setup). "
              "distinct = distinct scenario hash",
         assumptions=[
             "reference FIB semantics (Linux): rules of a family are walked by ascending priority, equal priorities in insertion order; a rule matches on src/dst prefix, iif, oif; "
